@@ -156,6 +156,12 @@ func gridCommands() [][]string {
 	add("CLIENT", "LIST")
 	add("CLIENT", "SETNAME", "na\"me")
 	add("CLIENT", "GETNAME")
+	for _, n := range []string{"007", "1e3", "0x1p4", "true", "null", "-0", "1.0"} {
+		add("CLIENT", "SETNAME", n)
+		add("CLIENT", "GETNAME")
+		add("CLIENT", "LIST")
+	}
+	add("CLIENT", "SETNAME", "plain")
 	add("REPLCONF", "listening-port", "4242")
 	add("ROLE")
 	add("INFO", "replication")
@@ -356,7 +362,13 @@ func nonFiniteSlotSteps() []step {
 				st := mkStep(args, lane, name, "nonfinite-slot")
 				st.Force = true
 				out = append(out, st)
-				for _, a := range t.after {
+				after := t.after
+				if sp == "-inf" && len(after) > 1 && (args[0] == "SETHOOK" || args[0] == "SETCHAN") && slot == 4 {
+					// a deadline in the past: the hook disappears with the next sweep, at
+					// different moments on the three servers; only clean up
+					after = after[len(after)-1:]
+				}
+				for _, a := range after {
 					an, _, _ := cmdName(a)
 					as := mkStep(a, lanesAll[n%len(lanesAll)], an, "nonfinite-slot")
 					as.Force = true
